@@ -24,15 +24,60 @@ type vf21Enc struct {
 	Blocks   int // number of flush/frame boundaries + 1
 }
 
+type vf21Params struct {
+	Alg       uint16
+	CutsPM    []int // flush/frame boundaries in per-mille of the message length
+	ZLevel    int
+	BQuality  int
+	BLgwin    int
+	SLevel    int
+	SWinLog   int
+	SMultiFrm bool
+	SCRC      bool
+}
+
+func vf21GenParams(t *rapid.T, alg uint16) vf21Params {
+	p := vf21Params{Alg: alg}
+	n := rapid.IntRange(0, 4).Draw(t, "nsplit")
+	for i := 0; i < n; i++ {
+		p.CutsPM = append(p.CutsPM, rapid.IntRange(1, 999).Draw(t, fmt.Sprintf("cut%d", i)))
+	}
+	switch alg {
+	case 1:
+		p.ZLevel = rapid.IntRange(-2, 9).Draw(t, "zlevel")
+	case 2:
+		p.BQuality = rapid.IntRange(0, 11).Draw(t, "bquality")
+		p.BLgwin = rapid.IntRange(10, 24).Draw(t, "blgwin")
+	case 3:
+		p.SLevel = rapid.IntRange(0, 3).Draw(t, "slevel")
+		p.SWinLog = rapid.IntRange(10, 23).Draw(t, "swinlog")
+		p.SMultiFrm = rapid.Bool().Draw(t, "smultiframe")
+		p.SCRC = rapid.Bool().Draw(t, "scrc")
+	}
+	return p
+}
+
 // vf21Compress encodes m with a drawn encoder configuration and block/flush/frame structure.
 func vf21Compress(t *rapid.T, alg uint16, m []byte) vf21Enc {
-	// split points
-	nsplit := rapid.IntRange(0, 4).Draw(t, "nsplit")
-	var cuts []int
-	for i := 0; i < nsplit && len(m) > 1; i++ {
-		cuts = append(cuts, rapid.IntRange(1, len(m)-1).Draw(t, fmt.Sprintf("cut%d", i)))
+	return vf21CompressWith(vf21GenParams(t, alg), m)
+}
+
+// vf21CompressWith is deterministic in (p, m).
+func vf21CompressWith(p vf21Params, m []byte) vf21Enc {
+	alg := p.Alg
+	if p.SWinLog < 10 {
+		p.SWinLog = 17
 	}
-	// sort cuts
+	if p.BLgwin < 10 {
+		p.BLgwin = 18
+	}
+	var cuts []int
+	for _, pm := range p.CutsPM {
+		c := len(m) * pm / 1000
+		if c >= 1 && c <= len(m)-1 {
+			cuts = append(cuts, c)
+		}
+	}
 	for i := range cuts {
 		for j := i + 1; j < len(cuts); j++ {
 			if cuts[j] < cuts[i] {
@@ -53,8 +98,7 @@ func vf21Compress(t *rapid.T, alg uint16, m []byte) vf21Enc {
 	e := vf21Enc{Alg: alg, Blocks: len(chunks)}
 	switch alg {
 	case 1: // zlib
-		level := rapid.IntRange(-2, 9).Draw(t, "zlevel")
-		w, err := zlib.NewWriterLevel(&buf, level)
+		w, err := zlib.NewWriterLevel(&buf, p.ZLevel)
 		if err != nil {
 			panic(err)
 		}
@@ -65,11 +109,9 @@ func vf21Compress(t *rapid.T, alg uint16, m []byte) vf21Enc {
 			}
 		}
 		w.Close()
-		e.Settings = fmt.Sprintf("zlib level=%d chunks=%d", level, len(chunks))
+		e.Settings = fmt.Sprintf("zlib level=%d chunks=%d", p.ZLevel, len(chunks))
 	case 2: // brotli
-		q := rapid.IntRange(0, 11).Draw(t, "bquality")
-		lgwin := rapid.IntRange(10, 24).Draw(t, "blgwin")
-		w := brotli.NewWriterOptions(&buf, brotli.WriterOptions{Quality: q, LGWin: lgwin})
+		w := brotli.NewWriterOptions(&buf, brotli.WriterOptions{Quality: p.BQuality, LGWin: p.BLgwin})
 		for i, c := range chunks {
 			w.Write(c)
 			if i < len(chunks)-1 {
@@ -77,14 +119,11 @@ func vf21Compress(t *rapid.T, alg uint16, m []byte) vf21Enc {
 			}
 		}
 		w.Close()
-		e.Settings = fmt.Sprintf("brotli q=%d lgwin=%d chunks=%d", q, lgwin, len(chunks))
+		e.Settings = fmt.Sprintf("brotli q=%d lgwin=%d chunks=%d", p.BQuality, p.BLgwin, len(chunks))
 	case 3: // zstd
-		level := []zstd.EncoderLevel{zstd.SpeedFastest, zstd.SpeedDefault, zstd.SpeedBetterCompression, zstd.SpeedBestCompression}[rapid.IntRange(0, 3).Draw(t, "slevel")]
-		win := 1 << uint(rapid.IntRange(10, 23).Draw(t, "swinlog"))
-		multiFrame := rapid.Bool().Draw(t, "smultiframe")
-		crc := rapid.Bool().Draw(t, "scrc")
-		opts := []zstd.EOption{zstd.WithEncoderLevel(level), zstd.WithWindowSize(win), zstd.WithEncoderCRC(crc), zstd.WithEncoderConcurrency(1)}
-		if multiFrame {
+		level := []zstd.EncoderLevel{zstd.SpeedFastest, zstd.SpeedDefault, zstd.SpeedBetterCompression, zstd.SpeedBestCompression}[p.SLevel]
+		opts := []zstd.EOption{zstd.WithEncoderLevel(level), zstd.WithWindowSize(1 << uint(p.SWinLog)), zstd.WithEncoderCRC(p.SCRC), zstd.WithEncoderConcurrency(1)}
+		if p.SMultiFrm {
 			for _, c := range chunks {
 				w, err := zstd.NewWriter(&buf, opts...)
 				if err != nil {
@@ -106,7 +145,7 @@ func vf21Compress(t *rapid.T, alg uint16, m []byte) vf21Enc {
 			}
 			w.Close()
 		}
-		e.Settings = fmt.Sprintf("zstd level=%v win=%d multiframe=%v crc=%v chunks=%d", level, win, multiFrame, crc, len(chunks))
+		e.Settings = fmt.Sprintf("zstd level=%v win=%d multiframe=%v crc=%v chunks=%d", level, 1<<uint(p.SWinLog), p.SMultiFrm, p.SCRC, len(chunks))
 	default:
 		panic("alg")
 	}
@@ -353,4 +392,144 @@ func vf21RefDecompress(alg uint16, b []byte) ([]byte, error) {
 		return io.ReadAll(r)
 	}
 	return nil, fmt.Errorf("unknown algorithm %d", alg)
+}
+
+// Full handshakes through the scripted server: the CompressedCertificate message replaces Certificate, the client
+// must recover it, verify the real chain and the transcript (its Finished is checked by the server).
+func TestVerifC21Handshake(t *testing.T) {
+	st := vfNewStats(t, "C21")
+	rapid.Check(t, func(rt *rapid.T) {
+		base := []ClientHelloID{HelloChrome_120, HelloChrome_133, HelloSafari_16_0, HelloFirefox_120, HelloChrome_102}[rapid.IntRange(0, 4).Draw(rt, "base")]
+		spec, err := UTLSIdToSpec(base)
+		if err != nil {
+			rt.Fatalf("spec: %v", err)
+		}
+		algs := vf21GenAlgs(rt)
+		found := false
+		for i, e := range spec.Extensions {
+			if _, ok := e.(*UtlsCompressCertExtension); ok {
+				spec.Extensions[i] = &UtlsCompressCertExtension{Algorithms: algs}
+				found = true
+			}
+		}
+		if !found {
+			// insert before a trailing padding / psk extension
+			n := len(spec.Extensions)
+			pos := rapid.IntRange(0, n-1).Draw(rt, "inspos")
+			spec.Extensions = append(spec.Extensions[:pos], append([]TLSExtension{&UtlsCompressCertExtension{Algorithms: algs}}, spec.Extensions[pos:]...)...)
+		}
+		src := vfClientSrc{Kind: "custom", Name: "certcomp(" + base.Str() + ")", ID: HelloCustom, Spec: &spec}
+		sni := vfGenDNSName(rt, "sni")
+		st.Eval()
+		prep, err := vfPrepareClient(src, sni, rapid.Uint64().Draw(rt, "randseed"), nil)
+		if err != nil {
+			st.Violation(rt, "%s: %v", src, err)
+		}
+		defer prep.CP.Close()
+		o := prep.Offer
+		if !o.HasVersion(VersionTLS13) || o.PSK {
+			return
+		}
+		alg := uint16(algs[rapid.IntRange(0, len(algs)-1).Draw(rt, "alg")])
+		params := vf21GenParams(rt, alg)
+		fault := []string{"none", "none", "none", "declared-longer", "declared-shorter", "unadvertised", "truncate"}[rapid.IntRange(0, 6).Draw(rt, "fault")]
+		delta := rapid.IntRange(1, 300).Draw(rt, "delta")
+		keys := vfCertKeysFor(o, VersionTLS13, "")
+		if len(keys) == 0 {
+			return
+		}
+		// chain: leaf + 0..4 copies of the root (real certificates, so the client can parse them), optional staples
+		leaf := *vfLeaf(vfLeafSpec{KeyType: keys[rapid.IntRange(0, len(keys)-1).Draw(rt, "cert")], Names: vfCertNames(sni)})
+		cert := leaf
+		cert.Certificate = append([][]byte{}, leaf.Certificate...)
+		for i := rapid.IntRange(0, 4).Draw(rt, "extracerts"); i > 0; i-- {
+			cert.Certificate = append(cert.Certificate, vfGetCA("main").Cert.Raw)
+		}
+		if rapid.Bool().Draw(rt, "ocsp") {
+			cert.OCSPStaple = bytes.Repeat([]byte{0xaa}, rapid.IntRange(1, 2000).Draw(rt, "ocsplen"))
+		}
+		if rapid.Bool().Draw(rt, "scts") {
+			cert.SignedCertificateTimestamps = [][]byte{bytes.Repeat([]byte{0xbb}, rapid.IntRange(1, 300).Draw(rt, "sctlen"))}
+		}
+		var original []byte
+		var enc vf21Enc
+		msgAlg := alg
+		if fault == "unadvertised" {
+			adv := map[uint16]bool{}
+			for _, a := range algs {
+				adv[uint16(a)] = true
+			}
+			msgAlg = 0
+			for _, a := range []uint16{1, 2, 3} {
+				if !adv[a] {
+					msgAlg = a
+				}
+			}
+			if msgAlg == 0 {
+				fault = "none"
+				msgAlg = alg
+			} else {
+				params.Alg = msgAlg
+			}
+		}
+		s := &vsrvScript{Cert: &cert, CompressAlg: msgAlg}
+		s.CompressFn = func(m []byte) ([]byte, uint32) {
+			original = append([]byte(nil), m...)
+			enc = vf21CompressWith(params, m)
+			out, declared := enc.Out, uint32(len(m))
+			switch fault {
+			case "declared-longer":
+				declared += uint32(delta)
+			case "declared-shorter":
+				d := delta
+				if d >= len(m) {
+					d = len(m) - 1
+				}
+				declared -= uint32(d)
+			case "truncate":
+				out = out[:len(out)*delta/301]
+			}
+			return out, declared
+		}
+		scfg := vfServerConfig("ecdsa", vfCertNames(sni)...)
+		srv := Server(prep.SP, scfg)
+		vsrvInstall(srv, s)
+		pair := &vfPair{CP: prep.CP, SP: prep.SP, Cli: prep.UC, Srv: srv}
+		cerr, serr := pair.Handshake()
+		desc := fmt.Sprintf("%s advertising %v | chain of %d certs, message %d bytes | %s | fault=%s", src, algs, len(cert.Certificate), len(original), enc.Settings, fault)
+		st.Class("hs-fault=" + fault)
+		st.Class("hs-alg=" + map[uint16]string{1: "zlib", 2: "brotli", 3: "zstd"}[msgAlg])
+		if cerr == errVfHang || serr == errVfHang {
+			st.Violation(rt, "%s: hang", desc)
+		}
+		if fault == "none" {
+			if cerr != nil || serr != nil || !s.Completed {
+				st.Violation(rt, "%s: handshake with a valid CompressedCertificate failed: client err=%v server err=%v", desc, cerr, serr)
+			}
+			cs := pair.Cli.ConnectionState()
+			if len(cs.PeerCertificates) != len(cert.Certificate) || !bytes.Equal(cs.PeerCertificates[0].Raw, leaf.Certificate[0]) {
+				st.Violation(rt, "%s: client reports %d peer certificates", desc, len(cs.PeerCertificates))
+			}
+			if len(cert.OCSPStaple) > 0 && o.Hello.Ext(5) != nil && !bytes.Equal(cs.OCSPResponse, cert.OCSPStaple) {
+				st.Violation(rt, "%s: OCSP staple not recovered", desc)
+			}
+			if err := pair.Echo([]byte("x"), []byte("y")); err != nil {
+				st.Violation(rt, "%s: echo: %v", desc, err)
+			}
+		} else {
+			if cerr == nil || s.Completed {
+				st.Violation(rt, "%s: accepted", desc)
+			}
+			if fault != "truncate" {
+				// the alert is encrypted under the handshake keys: take it from what the scripted server received
+				if serr == nil || !strings.Contains(serr.Error(), "remote error: tls: bad certificate") {
+					st.Violation(rt, "%s: client aborted (%v); the server received %v, want the bad_certificate alert", desc, cerr, serr)
+				}
+			}
+		}
+		if enc.Blocks > 1 || fault != "none" {
+			st.NonTrivial(fmt.Sprintf("hs|%d|%s|%s", msgAlg, enc.Settings, fault))
+		}
+		st.Sample(map[string]any{"client": src.String(), "algs": fmt.Sprint(algs), "encoder": enc.Settings, "msg_len": len(original), "fault": fault, "client_error": fmt.Sprint(cerr)})
+	})
 }
